@@ -384,6 +384,8 @@ func (g *Gen) metadata() string {
 		return strings.Repeat("m", 256) // exactly the maximal length
 	case 5:
 		return strings.Repeat("é", 128) // 256 bytes in 128 characters
+	case 6:
+		return strings.Repeat("é", 200) // 200 characters but 400 bytes: too long, the limit counts bytes
 	case 1:
 		if g.hostile() {
 			return strings.Repeat("m", 257)
